@@ -437,6 +437,8 @@ def run_check(prop, tier, seed, n_override=None):
                         out.append("wlog")
                 return out
             hists = [(hid, with_wlog(lines)) for hid, lines in hists]
+            if prop == "C05":
+                hists += v1gen.gen_sync_soak(seed, 1 if n <= cfg["quick_n"] else 6)
         if cfg.get("kind") == "multi":
             results = []
             cps = corpus(prop)
